@@ -45,7 +45,16 @@ func anyProgram(rt *rapid.T, s *vh.Session) (runCase, *gen.Builder) {
 		PkgNames:      rapid.Bool().Draw(rt, "pkgnames"),
 		MaxFields:     4,
 	}
+	// one program in eight concentrates on zero-value guards over structs that hold
+	// interfaces / channels (comparable, but not plain data)
+	zeroMix := rapid.IntRange(0, 7).Draw(rt, "zero-guard-mix") == 0
+	if zeroMix {
+		o.SkipCopy, o.Exotic, o.MaxDepth = true, true, 3
+	}
 	b := gen.New(rt, o)
+	if zeroMix {
+		b.ForceZeroBits = 2
+	}
 	b.OpenNonComparable = s.Open("F-ZERO-NONCOMPARABLE")
 	b.OpenPtrSrcWhole = s.Open("F-UPDATE-PTRSRC-WHOLE")
 	b.NoUnnamedUnexported = s.Open("F-UNNAMED-UNEXPORTED")
@@ -55,7 +64,11 @@ func anyProgram(rt *rapid.T, s *vh.Session) (runCase, *gen.Builder) {
 	}
 	n := rapid.IntRange(1, 6).Draw(rt, "nmethods")
 	for i := 0; i < n; i++ {
-		switch rapid.IntRange(0, 9).Draw(rt, "method-kind") {
+		kind := rapid.IntRange(0, 9).Draw(rt, "method-kind")
+		if zeroMix {
+			kind = 7
+		}
+		switch kind {
 		case 0, 1, 2, 3:
 			b.Method(fmt.Sprintf("M%d", i), o.MaxDepth)
 		case 4, 5, 6:
